@@ -24,7 +24,7 @@ FULL = ["January", "February", "March", "April", "May", "June", "July", "August"
 ABBR = [m[:3].lower() for m in FULL]
 LETTERS = "".join(sorted(set("".join(FULL).lower() + "".join(FULL).upper())))
 EXTRA = "1²{\" xſ"         # word family: one ASCII digit, one non-ASCII digit, enclosers, blank, filler, U+017F (casefolds to "s", lower() leaves it)
-DIGITS = "0123456789²٣"    # numeric family
+DIGITS = "0123456789²٣\n "  # numeric family (a line feed / blank next to digits is not part of a digit string)
 MWS = {"int": MM.MonthIntMiddleware, "abbr": MM.MonthAbbreviationMiddleware, "long": MM.MonthLongStringMiddleware}
 
 
@@ -51,6 +51,17 @@ def drv_triple(v, ka, kb, kc):
     e2 = Entry("article", "k", [Field("month", v)])
     lib2 = MWS[kc](True).transform(Library([e2]))
     return lib.blocks, lib2.blocks
+
+
+def drv_two(v1, v2, kind):
+    """two entries through ONE middleware instance (and a second library through the same instance): each result must be
+    what the entry gets on its own from a fresh instance"""
+    mw = MWS[kind](True)
+    joint = mw.transform(Library([Entry("article", "k1", [Field("month", v1)]), Entry("article", "k2", [Field("month", v2)])]))
+    again = mw.transform(Library([Entry("article", "k3", [Field("month", v2)])]))
+    alone1 = MWS[kind](True).transform(Library([Entry("article", "k1", [Field("month", v1)])]))
+    alone2 = MWS[kind](True).transform(Library([Entry("article", "k2", [Field("month", v2)])]))
+    return joint.blocks, again.blocks, alone1.blocks, alone2.blocks
 
 
 def drv_pair(v, ka, kb):
@@ -282,6 +293,51 @@ def task_triple(L, ka, kb, kc):
     return rec.result(worlds=len(worlds))
 
 
+TWO_SIGMA = "jJaAnN{1"
+
+
+def task_two(L1, L2, kind):
+    eng = Engine()
+    rec = Recorder(eng)
+    v1 = eng.sym_str("a", L1, TWO_SIGMA)
+    v2 = eng.sym_str("b", L2, TWO_SIGMA)
+    E = eng.I.models.eq_simple
+    worlds = eng.run(drv_two, [v1, v2, kind])
+
+    def vals(blocks):
+        out = []
+        for b in blocks:
+            if not isinstance(b, Entry) or len(b.fields) != 1:
+                return None
+            out.append(b.fields[0].value)
+        return out
+
+    def rp(m):
+        import logging
+        logging.disable(logging.CRITICAL)
+        a, b = eng.model_str(m, v1), eng.model_str(m, v2)
+        try:
+            j, g, x, y = [vals(r) for r in drv_two(a, b, kind)]
+        except Exception as ex:  # noqa
+            return {"input": [a, b, kind], "observed": f"raised {type(ex).__name__}: {ex}", "expected": "no exception"}
+        if j is not None and x is not None and y is not None and g is not None and j == x + y and g == y and [type(t) for t in j] == [type(t) for t in x + y]:
+            return None
+        return {"input": [a, b, kind], "observed": {"together": j, "second library, same instance": g}, "expected": {"alone": [x, y]}}
+    for W in worlds:
+        if W.exc is not None:
+            rec.require(W, True, "two-no-exception", rp)
+            continue
+        j, g, x, y = [vals(r) for r in W.result]
+        if j is None or g is None or x is None or y is None or len(j) != 2 or len(g) != 1:
+            rec.require(W, True, "two-structure", rp)
+            continue
+        same = b_all([model_t(j[0]) is model_t(x[0]), model_t(j[1]) is model_t(y[0]), model_t(g[0]) is model_t(y[0]),
+                      E(j[0], x[0]), E(j[1], y[0]), E(g[0], y[0])])
+        rec.require(W, b_not(same), "entries-independent", rp)
+        rec.witness("two-entries", W)
+    return rec.result(worlds=len(worlds))
+
+
 def task_pair_int(ka, kb):
     eng = Engine()
     rec = Recorder(eng)
@@ -314,7 +370,7 @@ def main():
                   "int values": list(ir), "pairs": "all 9 ordered pairs on both string families and ints 1..12; all 27 ordered triples on ints 1..12 and strings of length 1..3"}
     chk.assumptions = ["values outside the alphabet / longer than 9 characters / non-str non-int values are outside the claim",
                        "a 'digit string' in the statement is read as ASCII decimal digits; non-ASCII digit characters (² ٣) are non-months and must be returned unchanged without an exception"]
-    chk.expected_vacuity = ["int-converted", "abbr-converted", "long-converted", "pair-on-month"]
+    chk.expected_vacuity = ["int-converted", "abbr-converted", "long-converted", "pair-on-month", "two-entries"]
     for L in range(LS, -1, -1):
         chk.add_task(f"str-L{L}", task_str, L=L)
     for L in range(LD, 0, -1):
@@ -323,6 +379,11 @@ def main():
                 chk.add_task(f"num-L{L}-{a}", task_str, L=L, prefix=a, family="num")
         else:
             chk.add_task(f"num-L{L}", task_str, L=L, family="num")
+    chk.bounds["two entries, one instance"] = f"month values of length 1..3 each over {TWO_SIGMA!r} (spellings differing in case only, braces, a digit), all three middlewares; a second library through the same instance"
+    for kind in MWS:
+        for L1 in (3, 2, 1):
+            for L2 in (3, 2, 1):
+                chk.add_task(f"two-{kind}-{L1}+{L2}", task_two, L1=L1, L2=L2, kind=kind)
     chk.add_task("int", task_int, lo=ir[0], hi=ir[1])
     chk.add_task("absent", task_absent)
     for ka in MWS:
